@@ -280,6 +280,10 @@ def run(ctx):
                 "re-verified, and custom formatters are out of scope.")
     ctx.assume("features speedups/v_htmlescape are outside the analysed configurations")
     ctx.assume("a safe (already escaped) string contains no raw metacharacters by construction of its producers")
+    # tojson returns a safe string: its HTML-safety filter (C16.T1) is a clause of this property as well
+    if not ctx.is_borrowed:
+        from . import c16 as _c16
+        _c16.run(ctx.borrowed("C16", "C02.S7:"))
     prog = ctx.prog
     # ---- S1
     n1 = 0
